@@ -7,7 +7,7 @@ ID = "C10"
 BOUNDS = {
     "quick": "tip argument: a single value out of {unbounded symbolic int, every Tip member, Tip.Any, 2.5, None, '1'} or a list / tuple / set / generator of "
              "length 0..2 whose elements are each one of {unbounded symbolic int, T1, T3, T8, Tip.Any, 2.5, None}; entry points aspirate_well, dispense_well, "
-             "transfer(tip=...) and the EVO commands evo_aspirate / evo_dispense / evo_wash with tips lists of length 1..2 (symbolic ints and Tip members)",
+             "transfer(tip=...) and the EVO commands evo_aspirate / evo_dispense / evo_wash with tips lists of length 1..2 (symbolic ints and Tip members); for list / tuple collections an earlier call in the same process with one of six other collections ([T3], [4], [T1,T4], [1,8], [1,2], [1,2.0]); EVO command volumes include 0",
     "thorough": "sequences up to length 3, both devices for transfer, EVO tips lists up to length 3",
 }
 OUTSIDE = "longer sequences (the chain int_to_tip partitions ALL integers into 9 classes per element, so element values are not bounded)"
